@@ -37,9 +37,9 @@ PROPS = {
         "modelled": CORE_MODELLED,
     },
     "C05": {
-        "quick": [("alloc", 300, 120), ("gc", 100, 120)],
-        "thorough": [("alloc", 4000, 300), ("gc", 1000, 300), ("cycle", 140, 400)],
-        "rule": "allocator-heavy histories (explicit add ahead of and behind the position, collections freeing lower ids); non-trivial = at least two next_id calls",
+        "quick": [("alloc", 300, 120), ("gc", 100, 120), ("fork", 150, 80)],
+        "thorough": [("alloc", 4000, 300), ("gc", 1000, 300), ("cycle", 140, 400), ("fork", 3000, 160)],
+        "rule": "allocator-heavy histories (explicit add ahead of and behind the position, collections freeing lower ids) and the fork profile (clones taken after a random prefix / after everything was read and collected / after allocator calls only / at once, then next_id on both copies); non-trivial = at least two next_id calls",
         "nontrivial": "nextids",
         "modelled": CORE_MODELLED,
     },
@@ -107,7 +107,7 @@ PROPS["C09"] = {
 PROPS["C10"] = {
     "quick": [("fork", 250, 120)],
     "thorough": [("fork", 5000, 300)],
-    "rule": "prefix from gc/alloc/cycle profiles, clone, then (A) the same calls on both copies (next_id included), (B) different calls on the two copies with the other copy observed after every call, drain of both; non-trivial = at least one collection",
+    "rule": "prefix from gc/alloc/cycle profiles (or: everything read and collected first; allocator calls only; nothing), clone, then inspect of every present vertex and slices on both copies (raw slot reads through dangling edges included) and the internal snapshots of both (hook) which must be equal, then (A) the same calls on both copies (next_id included), (B) different calls on the two copies with the other copy observed after every call, drain of both; non-trivial = at least one collection",
     "nontrivial": "collections",
     "modelled": CORE_MODELLED + ["PARTIAL: the deep-copy behaviour of the containers' Clone impls lives in the Rust runtime and is decided by the correspondence only"],
     "partial": ["Props.C10.same_future_partial (the pure model cannot express aliasing; independence is decided by the differential run)"],
